@@ -1,3 +1,6 @@
+(** * EvalProofsB: C15 - part B: board geometry under the vertical flip (finite checks),
+    the mirrored position square by square, the advanced-piece predicates and the attack
+    sets (sliders by induction on the ray walk) under [Rules.mirror]. *)
 From Coq Require Import NArith ZArith List Bool Lia Btauto.
 From FG Require Import Geom Rules FenSpec EvalImpl EvalProofsA.
 Import ListNotations.
